@@ -339,16 +339,25 @@ def gen_hand(seed, I):
             explicit_version = None
         if rng.random() < 0.7:
             rand_header_presets(rng, bs, hdr)
+        # small pictures (the default custom format is 640x480)
+        hdr.setdefault("video_parameters", bs.SourceParameters())["frame_size"] = bs.FrameSize(
+            custom_dimensions_flag=True, frame_width=rng.choice([1, 2, 4]), frame_height=rng.choice([1, 2]))
         n = rng.randrange(0, 7)
         kinds = ["header"] + [rng.choice(["pic", "pic", "frag0", "fragd", "pad", "aux", "header"]) for _ in range(n)] + ["eos"]
         if rng.random() < 0.05:
             kinds = ["eos"]
+        for i, k in enumerate(kinds):  # a data fragment needs the slice geometry of an earlier picture / first fragment
+            if k == "fragd" and not any(x in ("pic", "frag0") for x in kinds[:i]) and rng.random() < 0.85:
+                kinds[i] = "frag0"
+        omit_hdr = rng.random() < 0.08  # header dictionary omitted: all defaults (640x480 pictures: keep those out)
+        if omit_hdr:
+            kinds = [k for k in kinds if k not in ("pic", "frag0", "fragd")]
         for k in kinds:
             du = bs.DataUnit()
             pi = bs.ParseInfo()
             if k == "header":
                 pi["parse_code"] = PCs.sequence_header
-                if rng.random() < 0.9:
+                if not omit_hdr:
                     du["sequence_header"] = copy.deepcopy(hdr)
             elif k == "pic":
                 pi["parse_code"] = PCs.high_quality_picture if hq else PCs.low_delay_picture
@@ -423,6 +432,8 @@ def gen_valid(seed, I):
     meta = {"picmode": [], "cfg": []}
     for _ in range(rng.choice([1, 1, 1, 2, 3])):
         kw = common.random_small_config(rng, max_w=8, max_h=8)
+        if kw.get("picture_bytes") and kw["picture_bytes"] > 1500:  # keep the streams small
+            kw["picture_bytes"] = kw["slices_x"] * kw["slices_y"] * rng.randint(4, 60)
         cf = common.make_codec_features(**kw)
         npic = rng.choice([0, 1, 2, 3])
         if kw["fields"]:
